@@ -17,6 +17,7 @@ import (
 	"os"
 	"sort"
 	"strings"
+	"sync/atomic"
 	"time"
 
 	"github.com/onsi/gomega"
@@ -56,12 +57,17 @@ type sys struct {
 	lastErr  string // class of the last op's error
 	hist     []string
 	stuck    bool   // a wait for convergence timed out on this instance
+	confirm  bool   // a confirmation instance: generous convergence limit, runs one history
 	stale    string // name lookup that kept failing
 	poisoned bool
 }
 
-func newSys(sc scenario) (seqx.Sys, error) {
-	s := &sys{sc: sc, issued: map[channel.Key]bool{}, deleted: map[channel.Key]bool{}}
+var inconclusive atomic.Int64
+
+func newSys(sc scenario) (seqx.Sys, error) { return newSysMode(sc, false) }
+
+func newSysMode(sc scenario, confirm bool) (seqx.Sys, error) {
+	s := &sys{sc: sc, confirm: confirm, issued: map[channel.Key]bool{}, deleted: map[channel.Key]bool{}}
 	if sc.limit > 0 {
 		lim := sc.limit
 		s.c = mock.ProvisionCluster(ctx, sc.nodes, distribution.LayerConfig{TestingIntOverflowCheck: func(c xtypes.Uint20) error {
@@ -158,7 +164,11 @@ func (s *sys) engine(n int) []row {
 
 // wait until every node's metadata view lists the same channels (gossip is asynchronous)
 func (s *sys) converge() (map[int][]channel.Channel, bool) {
-	deadline := time.Now().Add(10 * time.Second)
+	limit := 10 * time.Second
+	if s.confirm {
+		limit = 90 * time.Second
+	}
+	deadline := time.Now().Add(limit)
 	if s.stuck {
 		deadline = time.Now() // already known not to converge: one look
 	}
@@ -465,7 +475,11 @@ func (s *sys) Apply(op string) (obs string, err error) {
 			s.lastFail, s.lastErr = true, errClass(err)
 			break
 		}
-		views, _ := s.converge()
+		views, same := s.converge()
+		if !same {
+			s.noteIssued(chs, liveBefore)
+			return obs + ":not-converged", nil // judged by Check (with confirmation)
+		}
 		live := map[channel.Key]channel.Channel{}
 		for _, c := range views[1] {
 			live[c.Key()] = c
@@ -527,7 +541,10 @@ func (s *sys) Apply(op string) (obs string, err error) {
 			s.lastFail, s.lastErr = true, errClass(err)
 			break
 		}
-		views, _ := s.converge()
+		views, same := s.converge()
+		if !same {
+			return obs + ":not-converged", nil
+		}
 		for i, k := range keys {
 			found := false
 			for _, c := range views[1] {
@@ -565,9 +582,25 @@ func (s *sys) Apply(op string) (obs string, err error) {
 	return obs, nil
 }
 
+// noteIssued records the keys a successful create returned without judging them (used when
+// the views did not converge in time and the judgement is left to Check).
+func (s *sys) noteIssued(chs []channel.Channel, liveBefore map[channel.Key]channel.Channel) {
+	for _, c := range chs {
+		k := c.Key()
+		if _, was := liveBefore[k]; was || s.issued[k] {
+			continue
+		}
+		s.issued[k] = true
+		s.refs = append(s.refs, k)
+	}
+}
+
 // ---- invariants
 
 func (s *sys) fpPrefix() string {
+	if !s.lastFail && s.lastOp == "create-overwrite" && s.sc.nodes > 1 {
+		return "after-create-overwrite-in-a-cluster:"
+	}
 	if s.lastFail {
 		return "after-failed-request-in-aborted-tx:" + s.lastOp + ":" + s.lastErr + ":"
 	}
@@ -598,9 +631,27 @@ func (s *sys) Check() error {
 		return nil
 	}
 	views, same := s.converge()
+	if !same && !s.confirm {
+		c, err := newSysMode(s.sc, true)
+		if err != nil {
+			return err
+		}
+		defer c.(*sys).Close()
+		cs := c.(*sys)
+		for _, op := range s.hist[len(s.sc.seed):] {
+			if _, err := cs.Apply(op); err != nil {
+				return err // a judged violation reproduced on the confirmation instance
+			}
+		}
+		if err := cs.Check(); err != nil {
+			return err
+		}
+		inconclusive.Add(1)
+		return nil // slow gossip on a loaded machine, not a property of the code
+	}
 	if !same && s.stale != "" {
 		return vk.Violationf(s.fpPrefix()+"name-lookup-misses-channel:after-"+s.lastOp,
-			"all nodes list the same channels, but for 10 s %s (the name index of that node was not updated)", s.stale)
+			"all nodes list the same channels, but %s on a dedicated confirmation run with a 90 s limit as well (the name index of that node was not updated)", s.stale)
 	}
 	if !same {
 		var sb strings.Builder
@@ -611,7 +662,7 @@ func (s *sys) Check() error {
 			}
 			fmt.Fprintf(&sb, "\n node %d: %s", n, rowsStr(rs))
 		}
-		return vk.Violationf(s.fpPrefix()+"metadata-views-differ", "after 10 s the nodes still list different channels:%s", sb.String())
+		return vk.Violationf(s.fpPrefix()+"metadata-views-differ", "the nodes keep listing different channels:%s", sb.String())
 	}
 	all := views[1]
 	names := map[string]channel.Key{}
@@ -810,6 +861,10 @@ func main() {
 		cfg := mk(sc)
 		cfg.Deadline = time.Now().Add(r.Left() / time.Duration(len(scs)-i))
 		seqx.Merge(r, seqx.Explore(r, cfg))
+	}
+	r.Set("convergence_waits_inconclusive", int(inconclusive.Load()))
+	if inconclusive.Load() > 0 {
+		r.Set("exhaustive", false) // states whose judgement was left open by slow gossip
 	}
 	r.Set("rule", "BFS over single creates (index, data on the leaseholder's first index, leased virtual, free virtual, calculated; retrieve-if-exists / overwrite), batched creates (mixed kinds, two leaseholders, duplicate names, invalid name, missing index first/last, failing peer / failing gateway part), renames (single, batched), deletes (single, batched in both orders) through every gateway, directly or in a transaction committed on success; dedup on the real state (every node's metadata view + every engine's channel list + issued/deleted keys); after every transition: all nodes list the same channels, names unique and valid, keys embed the leaseholder and are never reused, per leaseholder metadata == engine (key, name, data type, index, virtual), deleted channels are not retrievable, writable or readable through any node nor present in the engine")
 	r.Assume("in-memory cluster of core/pkg/distribution/mock (real aspen gossip with the fast propagation config, real cesium on memory file systems, in-memory transports); engine channel lists are obtained by probing every key of the issued range (+4) per leaseholder; service restarts are not exercised (the mock cluster cannot reopen a node)")
